@@ -42,6 +42,12 @@ POOL = [
     (recognize_currency, ('2,500 euros', 'en-us')),
     (recognize_datetime, ('03/04/2019', 'en-us')),
     (recognize_datetime, ('03/04/2019', 'fr-fr')),
+    # numerals in the convention the culture does not write itself (read by the order of the two marks), and numerals a
+    # parser left in the wrong convention would misread
+    (recognize_number, ('the invoice total was 1.234,56', 'en-us')),
+    (recognize_number, ('1,234 and 12.5', 'en-us')),
+    (recognize_number, ('1,234.56', 'fr-fr')),
+    (recognize_number, ('1.234 et 12,5', 'fr-fr')),
 ]
 CACHE = ModelFactory._ModelFactory__cache
 
